@@ -12,9 +12,16 @@
      (n, nev, ncv), every pair of object states carrying the constructor's constants (in particular: after every two histories),
      every argument tuple.  Bit-identity follows because every model function is a function: equal inputs give equal outputs
      (determinism of each hardware operation is in the trusted base).  The trace counters (`nexpand`, `nreorth`) are inert
-     (`c06_trace_counters_inert`).  The general family's numeric record (`GenSolver.genKern`) does not exist yet: for it the
-     footprint lemmas of `Arnoldi.factorize_from` are proved (`arnoldi_factorize_erase`) but no kernel record is instantiated;
-     those classes are covered by (1) and by the implementation-level bitwise oracle.
+     (`c06_trace_counters_inert`).
+  2b. … and for the numeric kernel record of the GENERAL family (`GenSolver.genKern`: `Arnoldi.init`, `Arnoldi.factorize_from`, the
+     single/double-shift loop with `UpperHessenbergQR`/`DoubleShiftQR`, `compress_H/V`, `HessEigen`, complex convergence test and
+     `V*y`; run bit for bit against `GenEigsSolver`/`GenEigsRealShiftSolver` by `drv_c02`/`drv_c06`) in `Proofs/C06Gen.lean`
+     (`gen_respects`), giving the UNCONDITIONAL `c06_gen_init_total`, `c06_gen_history_independent`, `c06_gen_fresh_vs_reused`,
+     `c06_gen_two_solvers_*`; and for `GenEigsComplexShiftSolver` (`GenSolver.computeCS`, whose `sort_ritzpair` prologue reads the
+     basis, the Ritz vectors and the user's operator at a probe shift) `c06_gencs_init_total`, `c06_gencs_history_independent`
+     (the operator at the probe shift is a fixed function there: that the solver leaves the INSTALLED shift alone is item 4).
+     The stale-columns argument is proved for `Arnoldi.factorize_from` as well (`c06_gen_stale_basis_columns_harmless`,
+     `c06_gen_factorize_writes_before_reads`, Proofs/C06GenStaleV.lean).
      The one place where the model is NOT a transliteration — `Arnoldi.init` zero-fills `V` while the C++ `resize()` keeps the stale
      columns >= 1 of a reused object — is closed by `c06_stale_basis_columns_harmless`: `factorize_from` writes every column
      before reading it, so the C++-faithful `init` and the model's give the identical object after the first factorization.
@@ -32,8 +39,10 @@
 -/
 import SpectraVerif.Proofs.OrchNonint
 import SpectraVerif.Proofs.C06Herm
+import SpectraVerif.Proofs.C06Gen
 import SpectraVerif.Proofs.C06OpShift
 import SpectraVerif.Proofs.C06StaleV
+import SpectraVerif.Proofs.C06GenStaleV
 import SpectraVerif.Properties.C05
 import SpectraVerif.Gen.RandSites
 import SpectraVerif.Gen.Footprint
@@ -226,6 +235,162 @@ theorem c06_two_solvers_one_op (h : List (Bool × Call (Vec α) α)) (which : Bo
 
 end herm
 
+
+/-! ## the general family: unconditional statements on the numeric kernel record -/
+
+section gen
+open Lin Arnoldi C06Footprint
+variable {α : Type} [Add α] [Sub α] [Mul α] [Div α] [Neg α] [Sc α]
+variable (op : Arnoldi.Op α) (c : Cfg) (eps23 : α) (back : GenSolver.Cx α → GenSolver.Cx α) (near0 eps : α)
+
+/-- **init is total, general family (GenEigsSolver: `back = id`; GenEigsRealShiftSolver: `back = realShiftBack sigma`), no
+    hypothesis on the kernels**: from ANY two states of solver objects with the same constructor arguments (`WfG`: the `const`
+    members of the factorization object hold what the constructor put there; `V`, `H`, `f`, `beta`, `k`, complex Ritz data, flags,
+    counters, `info` arbitrary — torn states left by exceptions included), `init(v)` throws the same or not at all, and then
+    `compute(args)` is observationally identical: return value or exception, eigenvalues, eigenvectors, `num_iterations`,
+    `num_operations`, `info`. -/
+theorem c06_gen_init_total (s1 s2 : GSt α) (h1 : WfG c near0 eps s1) (h2 : WfG c near0 eps s2) (v0 : Vec α)
+    (sel : Int) (maxit : Nat) (tol : α) (sorting : Int) (nvecs : List Nat) :
+    (init (GenSolver.genKern op c eps23 back) c v0 s1).2 = (init (GenSolver.genKern op c eps23 back) c v0 s2).2 ∧
+    ((init (GenSolver.genKern op c eps23 back) c v0 s1).2 = none →
+      SameObs (GenSolver.genKern op c eps23 back) c nvecs
+        (compute (GenSolver.genKern op c eps23 back) c sel maxit tol sorting (init (GenSolver.genKern op c eps23 back) c v0 s1).1)
+        (compute (GenSolver.genKern op c eps23 back) c sel maxit tol sorting (init (GenSolver.genKern op c eps23 back) c v0 s2).1)) := by
+  obtain ⟨he, hobs⟩ := c06_init_total (genKernC op c eps23 back near0 eps) c (gen_respects op c eps23 back near0 eps)
+    s1 s2 v0 sel maxit tol sorting nvecs
+  obtain ⟨b1e, b1s⟩ := gen_init_bridge op c eps23 back near0 eps v0 h1
+  obtain ⟨b2e, b2s⟩ := gen_init_bridge op c eps23 back near0 eps v0 h2
+  have he' : (init (GenSolver.genKern op c eps23 back) c v0 s1).2 = (init (GenSolver.genKern op c eps23 back) c v0 s2).2 := by
+    rw [← b1e, ← b2e]; exact he
+  refine ⟨he', fun hn => ?_⟩
+  have hn2 : (init (GenSolver.genKern op c eps23 back) c v0 s2).2 = none := by rw [← he']; exact hn
+  rw [b1s hn, b2s hn2] at hobs
+  rw [genKernC, compute_wfi, compute_wfi] at hobs
+  exact c06_obs_ignores_facInit c _ _ nvecs _ _ hobs
+
+/-- **fresh vs reused vs any history, general family**: for every operator, every `(n, nev, ncv)`, every two histories of
+    `init`/`compute` calls with any arguments (converging or not, rejected rules, rejected start vectors, failed Schur
+    decompositions) on two solver objects, and every argument tuple, the observed `init(v); compute(args)` pair behaves identically. -/
+theorem c06_gen_history_independent (hist1 hist2 : List (Call (Vec α) α)) (v0 : Vec α)
+    (sel : Int) (maxit : Nat) (tol : α) (sorting : Int) (nvecs : List Nat) :
+    (init (GenSolver.genKern op c eps23 back) c v0
+        (run (GenSolver.genKern op c eps23 back) c (construct (State.mk0 c.n c.ncv near0 eps)) hist1)).2 =
+    (init (GenSolver.genKern op c eps23 back) c v0
+        (run (GenSolver.genKern op c eps23 back) c (construct (State.mk0 c.n c.ncv near0 eps)) hist2)).2 ∧
+    ((init (GenSolver.genKern op c eps23 back) c v0
+        (run (GenSolver.genKern op c eps23 back) c (construct (State.mk0 c.n c.ncv near0 eps)) hist1)).2 = none →
+      SameObs (GenSolver.genKern op c eps23 back) c nvecs
+        (compute (GenSolver.genKern op c eps23 back) c sel maxit tol sorting (init (GenSolver.genKern op c eps23 back) c v0
+          (run (GenSolver.genKern op c eps23 back) c (construct (State.mk0 c.n c.ncv near0 eps)) hist1)).1)
+        (compute (GenSolver.genKern op c eps23 back) c sel maxit tol sorting (init (GenSolver.genKern op c eps23 back) c v0
+          (run (GenSolver.genKern op c eps23 back) c (construct (State.mk0 c.n c.ncv near0 eps)) hist2)).1)) :=
+  c06_gen_init_total op c eps23 back near0 eps _ _
+    (gen_run_wf op c eps23 back near0 eps hist1 (gen_construct_wf c near0 eps))
+    (gen_run_wf op c eps23 back near0 eps hist2 (gen_construct_wf c near0 eps)) v0 sel maxit tol sorting nvecs
+
+/-- in particular a fresh solver and a reused one agree -/
+theorem c06_gen_fresh_vs_reused (hist : List (Call (Vec α) α)) (v0 : Vec α)
+    (sel : Int) (maxit : Nat) (tol : α) (sorting : Int) (nvecs : List Nat)
+    (hacc : (init (GenSolver.genKern op c eps23 back) c v0 (construct (State.mk0 c.n c.ncv near0 eps))).2 = none) :
+    SameObs (GenSolver.genKern op c eps23 back) c nvecs
+      (compute (GenSolver.genKern op c eps23 back) c sel maxit tol sorting
+        (init (GenSolver.genKern op c eps23 back) c v0 (construct (State.mk0 c.n c.ncv near0 eps))).1)
+      (compute (GenSolver.genKern op c eps23 back) c sel maxit tol sorting (init (GenSolver.genKern op c eps23 back) c v0
+        (run (GenSolver.genKern op c eps23 back) c (construct (State.mk0 c.n c.ncv near0 eps)) hist)).1) :=
+  (c06_gen_history_independent op c eps23 back near0 eps [] hist v0 sel maxit tol sorting nvecs).2 hacc
+
+/-- a call on solver 1 (`false`) or solver 2 (`true`) -/
+def gstep2 (p : GSt α × GSt α) (tc : Bool × Call (Vec α) α) : GSt α × GSt α :=
+  if tc.1 then (p.1, step (GenSolver.genKern op c eps23 back) c p.2 tc.2)
+  else (step (GenSolver.genKern op c eps23 back) c p.1 tc.2, p.2)
+
+/-- any interleaving of calls on two solver objects built over the SAME operator value -/
+def grun2 (p : GSt α × GSt α) (h : List (Bool × Call (Vec α) α)) : GSt α × GSt α := h.foldl (gstep2 op c eps23 back) p
+
+/-- each solver evolves exactly as if the other did not exist -/
+theorem c06_gen_two_solvers_independent (h : List (Bool × Call (Vec α) α)) : ∀ (p : GSt α × GSt α),
+    (grun2 op c eps23 back p h).1 = run (GenSolver.genKern op c eps23 back) c p.1 ((h.filter (fun tc => !tc.1)).map (·.2)) ∧
+    (grun2 op c eps23 back p h).2 = run (GenSolver.genKern op c eps23 back) c p.2 ((h.filter (fun tc => tc.1)).map (·.2)) := by
+  induction h with
+  | nil => intro p; exact ⟨rfl, rfl⟩
+  | cons tc h ih =>
+    intro p
+    obtain ⟨t, call⟩ := tc
+    cases t with
+    | false => exact ih (step (GenSolver.genKern op c eps23 back) c p.1 call, p.2)
+    | true => exact ih (p.1, step (GenSolver.genKern op c eps23 back) c p.2 call)
+
+/-- **a second solver sharing the operator, general family**: after ANY interleaved history on two solver objects over the same
+    operator, the observed `init(v); compute(args)` on either of them is observationally identical to the same pair on a fresh
+    solver -/
+theorem c06_gen_two_solvers_one_op (h : List (Bool × Call (Vec α) α)) (which : Bool) (v0 : Vec α)
+    (sel : Int) (maxit : Nat) (tol : α) (sorting : Int) (nvecs : List Nat)
+    (hacc : (init (GenSolver.genKern op c eps23 back) c v0 (construct (State.mk0 c.n c.ncv near0 eps))).2 = none) :
+    SameObs (GenSolver.genKern op c eps23 back) c nvecs
+      (compute (GenSolver.genKern op c eps23 back) c sel maxit tol sorting
+        (init (GenSolver.genKern op c eps23 back) c v0 (construct (State.mk0 c.n c.ncv near0 eps))).1)
+      (compute (GenSolver.genKern op c eps23 back) c sel maxit tol sorting (init (GenSolver.genKern op c eps23 back) c v0
+        (if which then (grun2 op c eps23 back (construct (State.mk0 c.n c.ncv near0 eps), construct (State.mk0 c.n c.ncv near0 eps)) h).2
+         else (grun2 op c eps23 back (construct (State.mk0 c.n c.ncv near0 eps), construct (State.mk0 c.n c.ncv near0 eps)) h).1)).1) := by
+  obtain ⟨e1, e2⟩ := c06_gen_two_solvers_independent op c eps23 back h
+    (construct (State.mk0 c.n c.ncv near0 eps), construct (State.mk0 c.n c.ncv near0 eps))
+  cases which with
+  | true => simp only [if_true]; rw [e2]; exact c06_gen_fresh_vs_reused op c eps23 back near0 eps _ v0 sel maxit tol sorting nvecs hacc
+  | false =>
+    simp only [Bool.false_eq_true, if_false]; rw [e1]
+    exact c06_gen_fresh_vs_reused op c eps23 back near0 eps _ v0 sel maxit tol sorting nvecs hacc
+
+/-! ### GenEigsComplexShiftSolver (`GenSolver.computeCS`) -/
+
+variable (probe : Vec α → Vec α) (sigmar sigmai : α)
+
+/-- **init is total, complex-shift class**: `compute` is `GenSolver.computeCS` — `Orch.compute` with the state-dependent prologue of
+    `GenEigsComplexShiftSolver::sort_ritzpair` (probe shift, two roots per Ritz value, root selection by the residual of the
+    operator `probe` at the probe shift on `V * y`, conjugate-pair loop).  From ANY two well-formed object states `init(v)` throws
+    the same or not at all, and then `compute(args)` is observationally identical. -/
+theorem c06_gencs_init_total (s1 s2 : GSt α) (h1 : WfG c near0 eps s1) (h2 : WfG c near0 eps s2) (v0 : Vec α)
+    (sel : Int) (maxit : Nat) (tol : α) (sorting : Int) (nvecs : List Nat) :
+    (init (GenSolver.genKern op c eps23 id) c v0 s1).2 = (init (GenSolver.genKern op c eps23 id) c v0 s2).2 ∧
+    ((init (GenSolver.genKern op c eps23 id) c v0 s1).2 = none →
+      SameObs (GenSolver.genKern op c eps23 id) c nvecs
+        (GenSolver.computeCS op probe c eps23 sigmar sigmai sel maxit tol sorting (init (GenSolver.genKern op c eps23 id) c v0 s1).1)
+        (GenSolver.computeCS op probe c eps23 sigmar sigmai sel maxit tol sorting (init (GenSolver.genKern op c eps23 id) c v0 s2).1)) := by
+  obtain ⟨hs, he⟩ := init_sim (genKernC op c eps23 id near0 eps) c (gen_respects op c eps23 id near0 eps) v0 s1 s2
+  obtain ⟨b1e, b1s⟩ := gen_init_bridge op c eps23 id near0 eps v0 h1
+  obtain ⟨b2e, b2s⟩ := gen_init_bridge op c eps23 id near0 eps v0 h2
+  have he' : (init (GenSolver.genKern op c eps23 id) c v0 s1).2 = (init (GenSolver.genKern op c eps23 id) c v0 s2).2 := by
+    rw [← b1e, ← b2e]; exact he
+  refine ⟨he', fun hn => ?_⟩
+  have hn2 : (init (GenSolver.genKern op c eps23 id) c v0 s2).2 = none := by rw [← he']; exact hn
+  rw [b1s hn, b2s hn2] at hs
+  obtain ⟨q1, q2, q5⟩ := computeCS_sim op probe c eps23 sigmar sigmai near0 eps sel maxit tol sorting _ _ hs
+  have hobs : SameObs (genKernC op c eps23 id near0 eps) c nvecs
+      (GenSolver.computeCS op probe c eps23 sigmar sigmai sel maxit tol sorting (init (GenSolver.genKern op c eps23 id) c v0 s1).1)
+      (GenSolver.computeCS op probe c eps23 sigmar sigmai sel maxit tol sorting (init (GenSolver.genKern op c eps23 id) c v0 s2).1) :=
+    ⟨q2, (accessors_sim _ c (gen_respects op c eps23 id near0 eps) _ _ q1 0).1,
+      fun nvec _ => (accessors_sim _ c (gen_respects op c eps23 id near0 eps) _ _ q1 nvec).2.1, q1.niter, q1.nmatop, q5⟩
+  exact c06_obs_ignores_facInit c _ _ nvecs _ _ hobs
+
+/-- **fresh vs reused vs any history, complex-shift class** (histories of `init` / `computeCS` calls) -/
+theorem c06_gencs_history_independent (hist1 hist2 : List (Call (Vec α) α)) (v0 : Vec α)
+    (sel : Int) (maxit : Nat) (tol : α) (sorting : Int) (nvecs : List Nat)
+    (hacc : (init (GenSolver.genKern op c eps23 id) c v0
+      (runCS op probe c eps23 sigmar sigmai (construct (State.mk0 c.n c.ncv near0 eps)) hist1)).2 = none) :
+    SameObs (GenSolver.genKern op c eps23 id) c nvecs
+      (GenSolver.computeCS op probe c eps23 sigmar sigmai sel maxit tol sorting (init (GenSolver.genKern op c eps23 id) c v0
+        (runCS op probe c eps23 sigmar sigmai (construct (State.mk0 c.n c.ncv near0 eps)) hist1)).1)
+      (GenSolver.computeCS op probe c eps23 sigmar sigmai sel maxit tol sorting (init (GenSolver.genKern op c eps23 id) c v0
+        (runCS op probe c eps23 sigmar sigmai (construct (State.mk0 c.n c.ncv near0 eps)) hist2)).1) :=
+  (c06_gencs_init_total op c eps23 near0 eps probe sigmar sigmai _ _
+    (runCS_wf op probe c eps23 sigmar sigmai near0 eps hist1 (gen_construct_wf c near0 eps))
+    (runCS_wf op probe c eps23 sigmar sigmai near0 eps hist2 (gen_construct_wf c near0 eps)) v0 sel maxit tol sorting nvecs).2 hacc
+
+end gen
+
+/-- the hypotheses are satisfiable at the executable instance of the general family: a freshly constructed `Float` object is well formed -/
+example (n nev ncv : Nat) (near0 eps : Float) :
+    C06Footprint.WfG ⟨n, nev, ncv⟩ near0 eps (construct (Arnoldi.State.mk0 n ncv near0 eps) : C06Footprint.GSt Float) := rfl
+
 /-! ### the stale columns of a reused basis matrix -/
 
 section stale
@@ -249,6 +414,23 @@ theorem c06_factorize_writes_before_reads (op : Arnoldi.Op α) (s : State α) (B
     (hn : s.n ≤ s.V.rows) (hop : OpWF op s.V.rows) :
     Lanczos.factorize_from op { s with V := B } from_k s.V.cols = Lanczos.factorize_from op s from_k s.V.cols :=
   factorize_overwrites op s B from_k h hn hop
+
+/-- **the same for the general family** (`Arnoldi::factorize_from`, which `GenEigsBase::compute()` calls): `V.col(i) = f / beta` is
+    assigned before `expand_basis` (reads `leftCols(i)`), the Gram–Schmidt step and the re-orthogonalisation (read
+    `leftCols(i + 1)`) see it, so for EVERY old matrix of the right shape the C++-faithful `init` (stale columns `>= 1` kept) and
+    the model's zero-filling `Arnoldi.init` give the identical object after the first factorization: `c06_gen_*` speak about the
+    code as it is -/
+theorem c06_gen_stale_basis_columns_harmless (op : Arnoldi.Op α) (s : State α) (v0 : Vec α) (hw : WF s.V) (hr : s.V.rows = s.n)
+    (hc : s.V.cols = s.m) (hm : 1 ≤ s.m) (hop : OpWF op s.n) :
+    (initKeepV op s v0).bind (fun s' => Arnoldi.factorize_from op s' 1 s.m) =
+    (Arnoldi.init op s v0).bind (fun s' => Arnoldi.factorize_from op s' 1 s.m) :=
+  arnoldi_init_stale_columns_harmless op s v0 hw hr hc hm hop
+
+/-- `Arnoldi::factorize_from(from_k, ncv)` ignores (and overwrites) the columns `>= from_k` -/
+theorem c06_gen_factorize_writes_before_reads (op : Arnoldi.Op α) (s : State α) (B : Mat α) (from_k : Nat) (h : AgreeCols from_k s.V B)
+    (hop : OpWF op s.V.rows) :
+    Arnoldi.factorize_from op { s with V := B } from_k s.V.cols = Arnoldi.factorize_from op s from_k s.V.cols :=
+  arnoldi_factorize_overwrites op s B from_k h hop
 
 /-- **rows/columns of H at or beyond `from_k` are zeroed before anything reads them**: both factorizations start with
     `m_fac_H.rightCols(m - from_k).setZero(); m_fac_H.block(from_k, 0, m - from_k, from_k).setZero()`, so only the leading
